@@ -45,6 +45,20 @@ func LoadFindings() *Findings {
 	return f
 }
 
+// LoadFindingsAs loads the findings of property `from` relabelled as property `as` (a driver
+// reused under another property keeps tolerating exactly its own listed findings).
+func LoadFindingsAs(from, as string) *Findings {
+	f := LoadFindings()
+	out := &Findings{}
+	for _, k := range f.List {
+		if k.Property == from {
+			k.Property = as
+			out.List = append(out.List, k)
+		}
+	}
+	return out
+}
+
 // Match returns the non-fixed finding that lists exactly this failure: same property, same
 // class and every key of its `where` present with an equal value in the violation.
 func (f *Findings) Match(prop string, v *Violation) *Finding {
